@@ -1,4 +1,4 @@
-SERVED = ["C03", "C06", "C07", "C08", "C10", "C15", "C13", "C14", "C16", "C17", "C18", "C19", "C20"]
+SERVED = ["C03", "C05", "C06", "C07", "C08", "C10", "C15", "C13", "C14", "C16", "C17", "C18", "C19", "C20"]
 HOOKS = {
     "guard": "PSYCHEC_VERIF",
     "enable": "harness/Makefile compiles /repo's sources with -DPSYCHEC_VERIF into /verif/.cache/build-<flavour>/; "
@@ -81,6 +81,20 @@ CHECKS = {
         "note": "Trusted: Coq kernel; hand transcription C18Model.v (chains as index lists, object identity as element index, int arithmetic unbounded: < 2^28 elements); extraction; harness. "
                 "That tokens are NUL-free is C01/C05's business. Print Assumptions: closed under the global context.",
         "technique": "Coq invariant proof by induction over operation histories (any hash function) + model/implementation correspondence incl. internal chains",
+    },
+    "C05": {
+        "text": "PARTIAL. Theorem C05_punctuator_maximal_munch, over the punctuator cases of Lexer::yylex_CORE as regenerated from Lexer.cpp on this run (decision statements: kind assignment, yyinput(), "
+                "test of yychar_): for every translated first byte and EVERY input that follows it (any bytes, any length; '??' excluded as translation phase 1), the lexer assigns the kind of the LONGEST "
+                "row of the 6.4.6 table (digraphs included) that is a prefix of the input, consumes exactly that row, and never calls yyinput() at the terminating NUL.  Proved by a kernel-evaluated sweep "
+                "over all continuations of up to 3 bytes over the alphabet the statements and the table mention, lifted to all inputs by a proved reduction (bytes outside the alphabet are indistinguishable, "
+                "no statement looks more than 3 bytes ahead, no row is longer than 4).  Everything else the property states — '.', '/', '%' (these cases peek at yytext_[1] or call sub-lexers), identifiers, "
+                "every constant and literal form, comments and splices as separators, spelling, byte and UTF-16 extents, increasing extents, exactly one final EOF — is decided by correspondence with an "
+                "independently written C11 tokenizer (gen/reflex.py): exhaustively all ordered pairs of punctuators with no and with every separator (thorough: all triples), every punctuator against every "
+                "other token class, generated constants/literals over all bases, suffixes, exponents, prefixes and escapes, and random token sequences.",
+        "design_ref": "DESIGN.md section 6, C05",
+        "note": "Trusted: Coq kernel incl. vm_compute; translate/punct.py (validated each run: extracted interpreter vs compiled lexer on every first byte x continuations); table PunctSpec.v; reference tokenizer gen/reflex.py; "
+                "extraction; harness. Modelled not verified: yyinput() as 'advance one byte' (multi-byte stepping is C01's), the sub-lexers. Print Assumptions: closed under the global context.",
+        "technique": "Coq proof: finite sweep (vm_compute) lifted to all inputs by a proved reduction, on a model regenerated from the source + differential correspondence with an independent tokenizer",
     },
     "C06": {
         "text": "Proved (C06_tables, reflective over EVERY SyntaxKind, on the functions regenerated from the source): precedenceOf is defined exactly on the 31 N-ary operator tokens and orders them "
